@@ -50,12 +50,12 @@ _JOB = None
 
 
 def _worker(args):
-    prefixes, deadline, crosscheck_every, seed = args
+    prefixes, deadline, crosscheck_every, seed, known = args
     job = _JOB
     try:
         eng = Engine(deadline=deadline)
         res = eng.explore(job.fn, job.params, prefixes=prefixes,
-                          crosscheck_every=crosscheck_every)
+                          crosscheck_every=crosscheck_every, known_patterns=known)
         res['stats'] = eng.stats
         res['events'] = eng.events
         return res
@@ -90,11 +90,11 @@ def _merge(total, res):
             total['violations'].append(v)
 
 
-def run_job(job, seed=0, nproc=NPROC):
+def run_job(job, seed=0, nproc=NPROC, known=()):
     """Explore one job; returns merged result dict."""
     global _JOB
     t0 = time.time()
-    deadline = t0 + job.budget_s
+    deadline = t0 + min(job.budget_s, float(os.environ.get('VERIF_BUDGET_S', '1e9')))
     total = dict(stats={}, events={}, exhaustive=True, crosschecks=0, diverged=[],
                  errors=[], samples=[], violations=[], ob_keys={})
     if job.setup:
@@ -103,13 +103,13 @@ def run_job(job, seed=0, nproc=NPROC):
     try:
         eng = Engine(deadline=deadline)
         if job.serial or nproc <= 1:
-            res = eng.explore(job.fn, job.params, crosscheck_every=job.crosscheck_every)
+            res = eng.explore(job.fn, job.params, crosscheck_every=job.crosscheck_every, known_patterns=known)
             res['stats'] = eng.stats
             res['events'] = eng.events
             _merge(total, res)
         else:
             res = eng.explore(job.fn, job.params, split_depth=job.split_depth,
-                              crosscheck_every=job.crosscheck_every)
+                              crosscheck_every=job.crosscheck_every, known_patterns=known)
             res['stats'] = eng.stats
             res['events'] = eng.events
             splits = res['splits']
@@ -123,7 +123,7 @@ def run_job(job, seed=0, nproc=NPROC):
                 ctx = mp.get_context('fork')
                 with ctx.Pool(min(nproc, len(chunks))) as pool:
                     for r in pool.imap_unordered(
-                            _worker, [(c, deadline, job.crosscheck_every, seed) for c in chunks]):
+                            _worker, [(c, deadline, job.crosscheck_every, seed, known) for c in chunks]):
                         _merge(total, r)
     except BaseException as e:
         total['exhaustive'] = False
@@ -216,7 +216,8 @@ def run_property(pid, jobs, tier, seed, level='other', technique='', assumptions
     functions = []
     seenf = set()
     for job in jobs:
-        r = run_job(job, seed=seed)
+        r = run_job(job, seed=seed, known=tuple(k['key'] for k in known if k.get('property') == pid
+                                                 and k.get('status') == 'known'))
         st = r['stats']
         for k in agg:
             if k == 'crosschecks':
@@ -276,7 +277,10 @@ def run_property(pid, jobs, tier, seed, level='other', technique='', assumptions
     # ---------------------------------------------------------------- output
     printed = set()
     for v, k in known_hits:
-        line = 'KNOWN-FINDING: property=%s %s [%s]' % (pid, k.get('what', ''), k['key'])
+        line = 'KNOWN-FINDING: property=%s %s [pattern %s; e.g. %s]' % (pid, k.get('what', ''), k['key'], v['key'])
+        if k['key'] in printed:
+            continue
+        printed.add(k['key'])
         if line not in printed:
             printed.add(line)
             print(line)
